@@ -18,6 +18,9 @@ requester with the same result, and the model's responses / cache / upstream log
 MetaGrid.main_tile / MetaTile.tiles / the lock coordinate and TileLocker.lock_filename are compared separately with
 g_main / g_members / g_key / lock_name on random grids and coordinates.
 
+The model is the repaired protocol (o_reload = true: a tile that is_cached finds although load_tiles missed it is
+loaded again, finding F22); corpus/C08/race-*.json are the witness schedules of the race and are replayed first.
+
 Oracle (independent of the model, on what the implementation did): at most one upstream call per meta tile; every
 response tile carries the image of its own coordinate; the cache directory ends up holding exactly the valid tiles of
 the meta tiles that had to be created (plus the initial tiles), each with its own image; a lock attempt is refused only
@@ -775,7 +778,7 @@ def oracle(world, s, reqs, initial, hang, final, extra, left):
 
 
 def race_window(s, tid, c):
-    """True when requester tid saw tile c missing, then present, and never looked again (the known finding)"""
+    """True when requester tid saw tile c missing, then present, and never looked again (finding F22, repaired)"""
     looks = [e['res'][2] for e in s.trace if e['pid'] == tid and e['res'] and e['res'][0] == 'read' and e['res'][1] == c]
     return looks == [False, True]
 
@@ -880,21 +883,6 @@ def count_found_later(trace):
     return n
 
 
-def detect_reload(ctx):
-    """Is the tile that appears between load_tiles and is_cached loaded again (proposed repair) or left empty?
-    Runs the witness schedule of all_responses_correct_refuted on the implementation."""
-    rootdir = ctx.tmpdir('probe')
-    conf = {'extent': (32, 32), 'res': (8, 4, 2, 1), 'origin': 'll', 'meta': (1, 1)}
-    with Patches() as patches:
-        world, s, reqs, initial, hang, final, extra, left, _ = run_one(
-            ctx, patches, conf, [[(1, 1, 1)], [(1, 1, 1)]], [], [0] + [1] * 30 + [0] * 30, 0, rootdir, ctx.rng)
-    r0 = s.results[0]
-    reads0 = [e['res'][2] for e in s.trace if e['pid'] == 0 and e['res'] and e['res'][0] == 'read']
-    if r0 and r0[0] == 'ok' and r0[1] and r0[1][0][1] is None and reads0 == [False, True]:
-        return False
-    return True
-
-
 # ----------------------------------------------------------------------------- grid part / lock names
 
 def run_grid(ctx):
@@ -970,13 +958,8 @@ def run_grid(ctx):
 
 
 def run(ctx):
-    try:
-        reload_flag = detect_reload(ctx)
-    except Exception as ex:  # noqa
-        ctx.problem('harness', 'probe run failed: %r' % (ex,))
-        reload_flag = False
-    ctx.notes.append('protocol variant observed on the implementation: o_reload = %s (%s)' % (
-        reload_flag, 'a tile stored between load_tiles and is_cached is loaded again' if reload_flag else
-        'a tile stored between load_tiles and is_cached is answered without image - known finding'))
+    # the protocol of the code: a tile that is_cached finds although load_tiles missed it is loaded again
+    # (repair of finding F22).  Not probed: an implementation that does not do this disagrees with the model and
+    # answers the witness schedules of corpus/C08/race-*.json without image (signature SIG_RACE).
     run_grid(ctx)
-    run_threads(ctx, reload_flag)
+    run_threads(ctx, True)
